@@ -721,7 +721,7 @@ class CSSSerializer:
             for item in rule.seq:
                 type_, val = item.type, item.value
                 # PRE
-                if '}' == val:
+                if '}' == val and stacks:
                     # close last open item on stack
                     stackblock = stacks.pop().value()
                     if stackblock:
